@@ -113,7 +113,7 @@ namespace detail
 	{
 		static qua<float, Q> call(qua<float, Q> const& q, float s)
 		{
-			vec<4, float, Q> Result;
+			qua<float, Q> Result;
 			Result.data = _mm_mul_ps(q.data, _mm_set_ps1(s));
 			return Result;
 		}
@@ -126,7 +126,7 @@ namespace detail
 		static qua<double, Q> call(qua<double, Q> const& q, double s)
 		{
 			qua<double, Q> Result;
-			Result.data = _mm256_mul_pd(q.data, _mm_set_ps1(s));
+			Result.data = _mm256_mul_pd(q.data, _mm256_set1_pd(s));
 			return Result;
 		}
 	};
@@ -137,7 +137,7 @@ namespace detail
 	{
 		static qua<float, Q> call(qua<float, Q> const& q, float s)
 		{
-			vec<4, float, Q> Result;
+			qua<float, Q> Result;
 			Result.data = _mm_div_ps(q.data, _mm_set_ps1(s));
 			return Result;
 		}
@@ -150,7 +150,7 @@ namespace detail
 		static qua<double, Q> call(qua<double, Q> const& q, double s)
 		{
 			qua<double, Q> Result;
-			Result.data = _mm256_div_pd(q.data, _mm_set_ps1(s));
+			Result.data = _mm256_div_pd(q.data, _mm256_set1_pd(s));
 			return Result;
 		}
 	};
